@@ -84,15 +84,15 @@ def h_dup_add(I):
 _SYS = {}
 
 
-def gen_sys():
+def gen_sys(first=10):
     """two PV and one Slack (one group, two models) with GENCLS referring to them; not set up"""
-    if 'g' not in _SYS:
+    if ('g', first) not in _SYS:
         ss = cases.build([1, 2, 3], lines=[(1, 2), (2, 3), (1, 3)], slacks=[dict(bus=1, idx=30)],
-                         pvs=[dict(bus=2, idx=10), dict(bus=3, idx=20)], setup=False,
-                         extra=[('GENCLS', dict(bus=2, gen=10, idx='A', M=5.0)), ('GENCLS', dict(bus=3, gen=20, idx='B', M=5.0)),
+                         pvs=[dict(bus=2, idx=first), dict(bus=3, idx=20)], setup=False,
+                         extra=[('GENCLS', dict(bus=2, gen=first, idx='A', M=5.0)), ('GENCLS', dict(bus=3, gen=20, idx='B', M=5.0)),
                                 ('GENCLS', dict(bus=1, gen=30, idx='C', M=5.0))])
-        _SYS['g'] = ss
-    return _SYS['g']
+        _SYS[('g', first)] = ss
+    return _SYS[('g', first)]
 
 
 def h_find_idx(allow_all, allow_none):
@@ -136,8 +136,8 @@ def h_find_idx(allow_all, allow_none):
     return h
 
 
-def h_backref(I):
-    ss = gen_sys()
+def h_backref(I, first=10):
+    ss = gen_sys(first)
     ss.PV.bus.v = [2, 3]
     ss.Slack.bus.v = [1]
     gens = [I.real('gen_of_A'), I.real('gen_of_B'), I.real('gen_of_C')]
@@ -157,7 +157,7 @@ def h_backref(I):
         MM.Model.idx2uid = orig
     names = ['A', 'B', 'C']
     out = []
-    for dev, (mdl, uid) in {10: (ss.PV, 0), 20: (ss.PV, 1), 30: (ss.Slack, 0)}.items():
+    for dev, (mdl, uid) in {first: (ss.PV, 0), 20: (ss.PV, 1), 30: (ss.Slack, 0)}.items():
         lst_m = mdl.SynGen.v[uid]
         guid = dict.__getitem__(ss.StaticGen.uid, dev)
         lst_g = ss.StaticGen.SynGen.v[guid]
@@ -176,20 +176,22 @@ def h_device_finder(I):
     from vlib import cases as CS
     ss = CS.build([1, 2], lines=[(1, 2)], slacks=[dict(bus=1, idx='S')], pqs=[dict(bus=2, idx='D', p0=0.2, q0=0.1), dict(bus=1, idx='E', p0=0.1, q0=0.0)],
                   setup=False, extra=[('BusFreq', dict(bus=2, idx='BF2'))])
-    same_bus = bool(I.boolean('both_loads_on_bus_2'))
-    given0 = bool(I.boolean('load0_names_existing_meter'))
-    ss.add('FLoad', dict(idx='F0', pq='D', busf='BF2' if given0 else None))
-    ss.add('FLoad', dict(idx='F1', pq='D' if same_bus else 'E', busf=None))      # a FLoad sits on the bus of its PQ
+    # three loads, each on bus 2 (which has a meter) or on bus 1 (which has none); a FLoad sits on the bus of its PQ
+    on2 = [bool(I.boolean(f'load{k}_on_bus_2')) for k in range(3)]
+    given0 = bool(I.boolean('load0_names_existing_meter')) and on2[0]
+    for k in range(3):
+        ss.add('FLoad', dict(idx=f'F{k}', pq='D' if on2[k] else 'E', busf='BF2' if (k == 0 and given0) else None))
     n0 = ss.BusFreq.n
     ss.collect_ref(); ss._list2array(); ss.link_ext_param(); ss.find_devices()      # the order System.setup uses
     found = ss.FLoad.busfreq.v
     out = []
-    for k in range(2):
+    for k in range(3):
         bf = found[k]
         bus_of_bf = ss.BusFreq.bus.v[ss.BusFreq.idx2uid(bf)]
         out.append((f'load {k} is linked to a frequency meter on its own bus', bus_of_bf == ss.FLoad.bus.v[k]))
-    need = 0 if same_bus else 1
+    need = 0 if all(on2) else 1                  # one helper for bus 1, however many loads share it
     out.append(('a helper is created at most once per missing target', ss.BusFreq.n - n0 == need))
+    out.append(('no two meters sit on the same bus afterwards', len(set(ss.BusFreq.bus.v)) == ss.BusFreq.n))
     return out
 
 
@@ -224,7 +226,8 @@ def job(spec):
     if kind == 'find':
         return H.run(f'find_idx[allow_all={arg[0]},allow_none={arg[1]}]', h_find_idx(*arg), region=lambda v, c: c.split('device ')[0])
     if kind == 'backref':
-        return H.run('System.collect_ref / set_backref', h_backref, max_paths=4000, region=lambda v, c: c.split(' <=> ')[-1] if '<=>' in c else c)
+        return H.run(f'System.collect_ref / set_backref [first static generator has idx {arg}]', lambda I: h_backref(I, arg), max_paths=4000,
+                     region=lambda v, c: c.split(' <=> ')[-1] if '<=>' in c else c)
     if kind == 'finder':
         return H.run('DeviceFinder.find_or_add', h_device_finder, region=lambda v, c: c)
     if kind == 'dangling':
@@ -263,7 +266,7 @@ def main():
     ck.out('DeviceFinder auto-creation beyond 2 devices', 'ExtVar.link_external failures are only logged by ANDES (not judged)')
     import itertools
     jobs = [('next', p) for p in itertools.product('pn', repeat=3)] + [('dup', 0)]
-    jobs += [('find', (a, b)) for a in (True, False) for b in (True, False)] + [('backref', 0), ('finder', 0), ('dangling', 0)]
+    jobs += [('find', (a, b)) for a in (True, False) for b in (True, False)] + [('backref', 10), ('backref', 0), ('finder', 0), ('dangling', 0)]
     if thorough:
         jobs += [('ch', j) for j in crosshair_jobs(240)]
     ck.merge(core.pmap(job, jobs))
